@@ -578,7 +578,12 @@ func runCase(rt *rapid.T, c *stats.Case) {
 			if ops[i].kind == "graceful" {
 				nd.Reopen() // apply() returned before reopening
 			}
-			got := e.observe(nd)
+			var got node.Obs
+			if stuck, slow := runBounded(func() { got = e.observe(nd) }); stuck != "" {
+				c.Violation("reads-never-return-after-failed-write", "write %d (key %x) failed during op %d %s (%s backend), the call returned %v; reading the node afterwards never returns: the goroutine is parked on a lock nobody holds any more\n%s", m, fs.FailedKey, i, ops[i], nd.Backend(), failedErr, stuck)
+			} else if slow != "" {
+				stats.HarnessError("observation after a failed write still running after %v (not parked on a lock):\n%s", stuckAfter, slow)
+			}
 			dbf, daf := node.Diff(got, e.ref(before(i)), 5), node.Diff(got, e.ref(worlds[i]), 5)
 			if failedErr != nil && len(dbf) > 0 {
 				c.Violation("memory-disagrees-with-disk-after-failed-write", "write %d (key %x) failed during op %d %s (%s backend) and the call returned %q; the same Blockchain object now differs from the chain before the op:\n%v", m, fs.FailedKey, i, ops[i], nd.Backend(), failedErr, dbf)
